@@ -339,6 +339,15 @@ pub trait Prop: Sync + Send {
     fn case_time_limit(&self) -> u64 {
         120
     }
+    /// judge every case in a child process (`pvcheck --worker`): private environment, killable
+    fn isolated(&self) -> bool {
+        false
+    }
+    /// whether exceeding `case_time_limit` in an isolated case is a property failure (the
+    /// statement itself is about bounded time) instead of an inconclusive harness-level event
+    fn timeout_is_failure(&self) -> bool {
+        false
+    }
     /// threads to use (solver-backed properties may want fewer/more)
     fn threads(&self) -> usize {
         default_threads()
@@ -475,6 +484,39 @@ pub fn judge(prop: &dyn Prop, payload: &Payload, tier: Tier, rec: &mut Recorder)
     r
 }
 
+/// judges in-process or through the worker's child process
+pub struct Judger {
+    prop: Arc<dyn Prop>,
+    tier: Tier,
+    iso: Option<crate::isolate::Isolated>,
+}
+
+impl Judger {
+    pub fn new(prop: Arc<dyn Prop>, tier: Tier) -> Self {
+        let iso = if prop.isolated() { Some(crate::isolate::Isolated::new(prop.id(), tier)) } else { None };
+        Judger { prop, tier, iso }
+    }
+    pub fn judge(&mut self, payload: &Payload, rec: &mut Recorder) -> Result<(), Failure> {
+        match self.iso.as_mut() {
+            None => judge(self.prop.as_ref(), payload, self.tier, rec),
+            Some(iso) => {
+                let r = iso.judge(payload, rec, self.prop.case_time_limit());
+                // collect mode is applied inside the child; timeouts and crashes arrive here
+                if collect_mode() {
+                    if let Err(f) = r {
+                        if !rec.frozen {
+                            let e = rec.collected.entry(f.sig.clone()).or_insert((0, f.detail.clone()));
+                            e.0 += 1;
+                        }
+                        return Ok(());
+                    }
+                }
+                r
+            }
+        }
+    }
+}
+
 pub fn collect_mode() -> bool {
     std::env::var("PV_COLLECT").is_ok()
 }
@@ -547,7 +589,8 @@ pub fn run_check(prop: Arc<dyn Prop>, tier: Tier) -> RunOutcome {
     let agg: Arc<Mutex<Recorder>> = Arc::new(Mutex::new(Recorder::new()));
     let mut harness_errors = vec![];
     let beats: Vec<Heartbeat> = (0..threads).map(|_| Arc::new(Mutex::new(None))).collect();
-    spawn_watchdog(prop.id(), tier, beats.clone(), prop.case_time_limit());
+    let wd_limit = if prop.isolated() { prop.case_time_limit() * 3 + 60 } else { prop.case_time_limit() };
+    spawn_watchdog(prop.id(), tier, beats.clone(), wd_limit);
 
     if let Err(e) = prop.setup(tier) {
         harness_errors.push(format!("setup: {}", e));
@@ -565,10 +608,11 @@ pub fn run_check(prop: Arc<dyn Prop>, tier: Tier) -> RunOutcome {
         let mut files: Vec<PathBuf> = rd.filter_map(|e| e.ok().map(|e| e.path())).collect();
         files.sort();
         let mut rec = Recorder::new();
+        let mut jd = Judger::new(prop.clone(), tier);
         for f in files {
             if let Ok(rf) = read_replay(&f) {
                 rec.label("regression-replays");
-                if let Err(fail) = judge(prop.as_ref(), &rf.payload, tier, &mut rec) {
+                if let Err(fail) = jd.judge(&rf.payload, &mut rec) {
                     if let Some(k) = known.matches(prop.id(), &fail.sig) {
                         *rec.known_hits.entry(k.signature.clone()).or_insert(0) += 1;
                     } else {
@@ -594,6 +638,7 @@ pub fn run_check(prop: Arc<dyn Prop>, tier: Tier) -> RunOutcome {
             let beat = beats[w].clone();
             handles.push(std::thread::spawn(move || {
                 let mut rec = Recorder::new();
+                let mut jd = Judger::new(prop.clone(), tier);
                 let mut local_sigs: HashSet<String> = HashSet::new();
                 loop {
                     let i = next.fetch_add(1, Ordering::Relaxed);
@@ -602,7 +647,7 @@ pub fn run_check(prop: Arc<dyn Prop>, tier: Tier) -> RunOutcome {
                     }
                     let payload = Payload::Item(i);
                     beat_set(&beat, &payload);
-                    let res = judge(prop.as_ref(), &payload, tier, &mut rec);
+                    let res = jd.judge(&payload, &mut rec);
                     beat_clear(&beat);
                     if let Err(fail) = res {
                         if let Some(k) = known.matches(prop.id(), &fail.sig) {
@@ -634,6 +679,7 @@ pub fn run_check(prop: Arc<dyn Prop>, tier: Tier) -> RunOutcome {
             let beat = beats[w].clone();
             handles.push(std::thread::spawn(move || {
                 let rec = RefCell::new(Recorder::new());
+                let jd = RefCell::new(Judger::new(prop.clone(), tier));
                 let cfg = Config {
                     cases: per as u32,
                     failure_persistence: None,
@@ -662,7 +708,7 @@ pub fn run_check(prop: Arc<dyn Prop>, tier: Tier) -> RunOutcome {
                     r.frozen = failed.get();
                     let payload = Payload::Tape(tape);
                     beat_set(&beat, &payload);
-                    let res = judge(prop.as_ref(), &payload, tier, &mut r);
+                    let res = jd.borrow_mut().judge(&payload, &mut r);
                     beat_clear(&beat);
                     match res {
                         Ok(()) => Ok(()),
@@ -693,7 +739,7 @@ pub fn run_check(prop: Arc<dyn Prop>, tier: Tier) -> RunOutcome {
                     let fail = if no_shrink.get() {
                         last_fail.borrow().clone().unwrap()
                     } else {
-                        match judge(prop.as_ref(), &payload, tier, &mut scratch) {
+                        match jd.borrow_mut().judge(&payload, &mut scratch) {
                             Err(f) => f,
                             Ok(()) => last_fail.borrow().clone().unwrap_or_else(|| {
                                 Failure::new("harness/flaky", "minimal case passed on re-run")
@@ -718,6 +764,16 @@ pub fn run_check(prop: Arc<dyn Prop>, tier: Tier) -> RunOutcome {
     let mut seen_sigs: HashSet<String> = HashSet::new();
     let found_list = std::mem::take(&mut *founds.lock().unwrap());
     for f in found_list {
+        if f.failure.sig.starts_with("hang/isolated-case-timeout") && !prop.timeout_is_failure() {
+            let path = write_replay(prop.id(), tier, &f);
+            println!(
+                "WATCHDOG property={} a single case exceeded its time limit; inconclusive, replay={}",
+                prop.id(),
+                path.display()
+            );
+            harness_errors.push(format!("case time limit exceeded (inconclusive): {}", path.display()));
+            continue;
+        }
         if f.failure.sig.starts_with("harness/") || f.failure.sig.contains("panic@HARNESS") {
             harness_errors.push(format!("{}: {}", f.failure.sig, f.failure.detail));
             let _ = write_replay(prop.id(), tier, &f);
@@ -836,7 +892,8 @@ pub fn replay_main(props: &[Arc<dyn Prop>], path: &Path) -> i32 {
     }
     let known = KnownFindings::load();
     let mut rec = Recorder::new();
-    match judge(prop.as_ref(), &rf.payload, rf.tier, &mut rec) {
+    let mut jd = Judger::new(prop.clone(), rf.tier);
+    match jd.judge(&rf.payload, &mut rec) {
         Ok(()) => {
             println!("replay {}: property {} holds on this input", path.display(), prop.id());
             for s in rec.samples.iter().take(1) {
